@@ -183,6 +183,49 @@ def check(c):
         if isinstance(r, ast.Return) and norm(r.value) == '-1':
             c.guard('C18.cmp-normalised', r, ['self < other'], cmpf)
 
+    # ---- memoised point helpers: the result of point arithmetic and
+    # comparison depends on the calendar in force (month lengths), which is
+    # process-global mutable state, so it must be part of the cache key
+    iso = 'cycling.iso8601'
+    cached = []
+    for f in list(c.idx.all_funcs()):
+        if f.mod != iso:
+            continue
+        decs = [norm(d) for d in f.node.decorator_list]
+        if not any(d.startswith('lru_cache') or d.startswith(
+                'functools.lru_cache') or d in ('cache', 'functools.cache')
+                for d in decs):
+            continue
+        uses_points = any(
+            isinstance(n, ast.Call) and norm(n.func) in (
+                'point_parse', '_point_parse', 'TimePoint')
+            for n in c.idx.walk(f.node))
+        if uses_points and f.name != '_point_parse':
+            cached.append(f)
+    c.floor('C18.cache-key', 'memoised helpers that parse time points',
+            len(cached), 4)
+    for f in cached:
+        c.funcs_seen.add(f.fq)
+        params = [a.arg for a in f.node.args.args]
+        ok = '_calendar_mode' in params
+        c.ob('C18.cache-key', f'{f.fq} :: the calendar mode is part of the '
+             'memoisation key', ok, c.where(f.node, f),
+             f'parameters {params}' + ('' if ok else ' — results computed '
+             'under one calendar are served under another: ordering and '
+             'arithmetic of points near month ends then disagree with the '
+             'calendar in force'))
+        if not ok:
+            continue
+        pos = params.index('_calendar_mode')
+        sites = c.calls(iso, f.name)
+        c.floor('C18.cache-key', f'calls of {f.name}', len(sites), 1)
+        for s in sites:
+            kw = {k.arg: norm(k.value) for k in s.keywords}
+            val = kw.get('_calendar_mode') or (
+                norm(s.args[pos]) if len(s.args) > pos else None)
+            c.ob('C18.cache-key', c.key(s) + ' passes the calendar in force',
+                 val == 'CALENDAR.mode', c.where(s), f'{val}')
+
 
 VARIANTS = [
     ('lt-le', 'cylc/flow/cycling/__init__.py',
@@ -249,4 +292,20 @@ class IntervalBase''', 'C18.type-guard'),
         return NotImplemented
 
     def __lt__(self, other: 'PointBase') -> bool:''', 'C18.cmp'),
+    ('cmp-cache-no-calendar', 'cylc/flow/cycling/iso8601.py',
+     '''        return self._iso_point_cmp(self.value, other.value, CALENDAR.mode)
+
+    @staticmethod
+    @lru_cache(_LRU_CACHE_SIZE)
+    def _iso_point_cmp(point_string, other_point_string, _calendar_mode):''',
+     '''        return self._iso_point_cmp(self.value, other.value)
+
+    @staticmethod
+    @lru_cache(_LRU_CACHE_SIZE)
+    def _iso_point_cmp(point_string, other_point_string):''',
+     'C18.cache-key'),
+    ('cmp-cache-constant-calendar', 'cylc/flow/cycling/iso8601.py',
+     'return self._iso_point_cmp(self.value, other.value, CALENDAR.mode)',
+     'return self._iso_point_cmp(self.value, other.value, None)',
+     'C18.cache-key'),
 ]
